@@ -1,8 +1,9 @@
 #!/bin/bash
 # Runs one tier of every claimed check and prints one line per property.
+here=$(cd "$(dirname "$0")/.." && pwd)
 tier=${1:-quick}
-for p in $(python3 -c "import json;print(' '.join(c['property_id'] for c in json.load(open('/verif/MANIFEST.json'))['checks']))"); do
+for p in $(python3 -c "import json;print(' '.join(c['property_id'] for c in json.load(open('$here/MANIFEST.json'))['checks']))"); do
   t0=$(date +%s)
-  out=$(/verif/check $p $tier 2>&1); rc=$?
+  out=$("$here/check" $p $tier 2>&1); rc=$?
   echo "$p rc=$rc secs=$(( $(date +%s) - t0 )) $(echo "$out" | grep -v '^KNOWN' | head -2 | cut -c1-160 | tr '\n' ' ')"
 done
